@@ -7,6 +7,7 @@ import AaVerif.Generated.AaTables
 import AaVerif.Aa.Wire
 import AaVerif.Logs
 import AaVerif.Layout
+import AaVerif.Aa.Resolve
 import AaVerif.Generated.LogRx
 open Proto
 
@@ -189,12 +190,23 @@ def suiteUniq (f : List String) : String :=
   let dups := names.filter (fun n => names.count n > 1)
   "ok\t" ++ escList dups.eraseDups ++ "\t" ++ b2s (decide names.Nodup)
 
+def suiteResolve (f : List String) : String :=
+  match f with
+  | att :: rules =>
+    let pre := (rules.filter (· != "")).filterMap Aa.decodeRule
+    match Aa.resolve 200 pre (unescList att) with
+    | .ok (pre', att') => "ok\t" ++ escList att' ++ "\t" ++ esc (Aa.getAttachments att') ++ "\t" ++ Aa.encodeRules (pre'.map some)
+    | .error .outOfFuel => "fuel"
+    | .error _ => "err"
+  | _ => "err\tbad-op"
+
 def main (args : List String) : IO Unit := do
   match args with
   | ["builder"] => serve suiteBuilder
   | ["setflags"] => serve suiteSetflags
   | ["filter"] => serve suiteFilter
   | ["layout"] => serve suiteLayout
+  | ["resolve"] => serve suiteResolve
   | ["uniq"] => serve suiteUniq
   | ["getlogs"] => serve suiteGetLogs
   | ["lognew"] => serve suiteLogNew
